@@ -18,6 +18,7 @@ import random
 import re
 
 import vf
+import x18q
 
 SHAPES = [
     # label-boundary near-misses: "notexample.com." ends with the bytes of "example.com."
@@ -391,6 +392,9 @@ def do_replay(ctx, path):
     rp = rec.get("replay", {})
     drv = rp.get("driver")
     ctx.seed = rec.get("seed", ctx.seed)
+    if drv == "queue":
+        x18q.replay_file(ctx, path)
+        return
     # the model the case came from is re-checked first (evidence: states/transitions)
     if drv == "matcher":
         ctx.tlc("Blocklist", "BlMatch.tla", "MC_Match_D2S1.cfg", workers=4, timeout=900, heap="6g")
@@ -444,4 +448,6 @@ def run(ctx, replay):
     matcher(ctx, thorough)
     persist(ctx, thorough)
     refresh_stage(ctx, thorough)
+    # writers really waiting on saveMu (BlQueue.tla): which waiter gets the lock is the code's choice
+    x18q.run_tier(ctx)
     stress(ctx, thorough)
